@@ -22,6 +22,7 @@ import QV.Lemmas.Expand
 import QV.Real
 import QV.Props.C01
 import QV.Props.C02
+import QV.Lemmas.ArgConv
 
 namespace QV.Props
 open QV Finset Unitaries Matrix
@@ -731,5 +732,121 @@ theorem C04_Z_override_fast_ne_dense :
     have : (invSqrt2 : ℝ) = 0 := by exact_mod_cast h0
     rw [this] at h
     norm_num at h
+
+
+/-! ## Extension round 2 (code inside the model): the keyword conversion of `create_dict`
+
+`ArgConv.createDictM2` models `unitaries.py:36-59` on a heap of storages: the three defaults are new double tensors; every keyword is
+`(matrix.clone().detach() if isinstance(matrix, torch.Tensor) else torch.tensor(matrix)).to(dtype=torch.double)` with torch's
+allocation behaviour (`torch.tensor` and `clone` copy, `.to` returns the tensor itself when the type already matches).
+`readDict h d` is the dictionary of MATRICES the rotation helpers see when the heap is `h` (it reads the storages: an aliased entry
+would follow the caller's later writes). -/
+
+section create_dict_arg
+open ArgConv
+variable {α : Type} [Add α] [Mul α] [Neg α] [Sub α] [Div α] [Zero α] [One α] [Transc α]
+set_option linter.unusedSectionVars false
+
+/-- **C04.6c** `create_dict(**kwargs)` from the caller's OBJECTS on. For every accepted container form (torch tensor or numpy array of
+any element type, rectangular nested list of Python bools / ints / floats / numpy scalars) whose content survives the conversion —
+every form except a nested list of Python FLOATS under torch's default dtype float32, and that form too when its entries are
+float32-representable (`r32` fixes them) — the call succeeds and
+* no storage of the caller is written (the heap is only extended);
+* every entry of the dictionary, defaults included, is a double tensor in a storage that did not exist before the call (it shares
+  memory with no object of the caller: `clone` / `torch.tensor` were not skipped);
+* the dictionary of matrices is `Unitaries.createDict` (the verified core: `C04_create_dict` — keywords override defaults, `X`, `Y`,
+  `Z` present otherwise) of the matrices the caller's objects denote, entry by entry EXACTLY;
+* whatever the caller later writes in place into ANY of its storages, the dictionary of matrices stays the same. -/
+theorem C04_create_dict_exact (r32 : α → α) (dd : Bool) (h : Heap (List α)) (kw : List (Char × Obj)) (hacc : Accepted h kw)
+    (hex : ∀ e ∈ kw, lossy dd e.2.box = true → ∀ v, h.read e.2.sid = some v → v.map r32 = v) :
+    ∃ h' d, createDictM2 r32 dd h kw = .ok (h', d) ∧
+      (∀ i, i < h.cells.length → h'.read i = h.read i) ∧
+      (∀ r ∈ d, h.cells.length ≤ r.2.sid ∧ r.2.dt = .float64) ∧
+      readDict h' d = createDict (kw.map (fun e => (e.1, toM2 ((h.read e.2.sid).getD [])))) ∧
+      (∀ i, i < h.cells.length → ∀ w, readDict (h'.write i w) d = readDict h' d) := by
+  have hc : ∀ v : List α, castList r32 DType.float64 v = v := by
+    intro v; simp [castList, castScalar]
+  obtain ⟨h', ts, ds, e, p, f1, f0⟩ := createDictArg_spec (castList r32) hc dd defaultCells h kw hacc
+  have fresh : ∀ r ∈ ts ++ ds, h.cells.length ≤ r.2.sid ∧ r.2.dt = .float64 := by
+    intro r hr
+    rcases List.mem_append.mp hr with hr | hr
+    · obtain ⟨a, _, ha⟩ := forall₂_right f1 hr; exact ⟨ha.2.1, ha.2.2.1⟩
+    · obtain ⟨a, _, ha⟩ := forall₂_right f0 hr; exact ⟨ha.2.1, ha.2.2.1⟩
+  refine ⟨h', ts ++ ds, e, fun i hi => read_of_prefix p hi, fresh, ?_, ?_⟩
+  · rw [readDict, List.map_append, createDict]
+    congr 1
+    · refine forall₂_map_eq f1 ?_
+      intro a b ha hab
+      obtain ⟨hk, _, _, v, hv, hw⟩ := hab
+      have hst : storedU (castList r32) dd a.2.box v = v := by
+        unfold storedU
+        by_cases hl : lossy dd a.2.box = true
+        · simpa [hl, castList, castScalar] using hex a ha hl v hv
+        · simp [hl]
+      simp only [hw, hst, hv, Option.getD_some, hk]
+    · have := forall₂_map_eq (f := fun e : Char × TRef => (e.1, toM2 ((h'.read e.2.sid).getD [])))
+        (g := fun e : Char × List α => (e.1, toM2 e.2)) f0 (by
+          intro a b _ hab
+          simp only [hab.2.2.2, Option.getD_some, hab.1])
+      rw [this]
+      simp [defaultCells, toM2_flatM2]
+  · intro i hi w
+    unfold readDict
+    refine List.map_congr_left ?_
+    intro r hr
+    rw [write_read_ne _ (by have := (fresh r hr).1; omega)]
+
+/-- **C04.6d** which form loses precision, precisely: a nested list of Python floats handed to `create_dict` while torch's default
+dtype is float32 is stored as the `r32`-ROUNDING of its entries (`torch.tensor(matrix)` without `dtype=` comes before
+`.to(torch.double)`), in a fresh double tensor; with default dtype float64, and in every other form, the entries are stored as given
+(`C04_create_dict_exact`). proposed/F_C04_create_dict_list_precision.md. -/
+theorem C04_create_dict_list_rounds (r32 : α → α) (h : Heap (List α)) (l : Char) (sid : ℕ) (v : List α) (hv : h.read sid = some v) :
+    ∃ h' d, createDictM2 r32 false h [(l, ⟨.pyList .pyFloat, sid⟩)] = .ok (h', d) ∧
+      (readDict h' d).lookup l = some (toM2 (v.map r32)) := by
+  have hc : ∀ v : List α, castList r32 DType.float64 v = v := by
+    intro v; simp [castList, castScalar]
+  have hacc : Accepted h [(l, (⟨.pyList .pyFloat, sid⟩ : Obj))] := by
+    intro e he
+    rw [List.mem_singleton] at he
+    subst he
+    exact ⟨rfl, read_some_lt hv⟩
+  obtain ⟨h', ts, ds, e, p, f1, f0⟩ := createDictArg_spec (castList r32) hc false defaultCells h _ hacc
+  refine ⟨h', ts ++ ds, e, ?_⟩
+  cases f1 with
+  | cons hab hnil =>
+    cases hnil
+    obtain ⟨hk, _, _, v', hv', hw⟩ := hab
+    rw [hv] at hv'
+    cases hv'
+    simp only [readDict, List.map_append, List.map_cons, List.map_nil, List.cons_append, List.nil_append, hk, hw,
+      Option.getD_some, List.lookup_cons_self]
+    simp [storedU, lossy, castList, castScalar]
+
+/-- a refused keyword (ragged nested list, an object that is not array-like) makes `create_dict` raise: no dictionary -/
+theorem C04_create_dict_refused (r32 : α → α) (dd : Bool) (h : Heap (List α)) (l : Char) (o : Obj) (rest : List (Char × Obj))
+    (hb : srcDType o.box = none) : ∃ e, createDictM2 r32 dd h ((l, o) :: rest) = .error e := by
+  obtain ⟨e, he⟩ := convertUnitary_refused (castList r32) dd
+    (allocDefaults h (defaultCells (α := α))).1 o hb
+  exact ⟨e, by simp [createDictM2, createDictArg, convertAll, he, bind, Except.bind]⟩
+
+end create_dict_arg
+
+/-- witness for `C04_create_dict_list_rounds` (the rounding `r32 := ⌊·⌋` stands for any rounding that moves 1/2): the list
+`[[[1/2, 0], [0, 1]], [[0, 0], [0, 0]]]` is stored as `diag(0, 1)` -/
+example : ∃ h' d, ArgConv.createDictM2 (fun x : ℝ => (⌊x⌋ : ℝ)) false ⟨[[1 / 2, 0, 0, 1, 0, 0, 0, 0]]⟩ [('A', ⟨.pyList .pyFloat, 0⟩)] = .ok (h', d) ∧
+    ((ArgConv.readDict h' d).lookup 'A').map (fun m => (m false false).1) = some 0 := by
+  obtain ⟨h', d, e, hl⟩ := C04_create_dict_list_rounds (fun x : ℝ => (⌊x⌋ : ℝ)) ⟨[[1 / 2, 0, 0, 1, 0, 0, 0, 0]]⟩ 'A' 0 _ rfl
+  refine ⟨h', d, e, ?_⟩
+  rw [hl]
+  simp [ArgConv.toM2]
+  norm_num
+
+/-- the hypotheses of `C04_create_dict_exact` are satisfiable by a non-trivial call: a float32 tensor, an int64 numpy array that
+overrides `X`, and a list of Python floats with float32-representable entries, in a heap that also holds another object -/
+example : ArgConv.Accepted (⟨[[1, 0, 0, 1, 0, 0, 0, 0], [0, 1, 1, 0, 0, 0, 0, 0], [1, 0, 0, 0, 0, 0, 0, 1], [7]]⟩ : ArgConv.Heap (List ℝ))
+    [('A', ⟨.tensor .float32, 0⟩), ('X', ⟨.ndarray .int64, 1⟩), ('B', ⟨.pyList .pyFloat, 2⟩)] := by
+  intro e he
+  simp only [List.mem_cons, List.not_mem_nil, or_false] at he
+  rcases he with rfl | rfl | rfl <;> exact ⟨rfl, by decide⟩
 
 end QV.Props
